@@ -5,6 +5,7 @@
      gen_boot                                           ... preceded by the selection of the TLS contexts (C20)
      gen_get_*_config, gen_serve_args                   ServerConfig's derivations and the call of start_server in __main__
      factories, chain_var                               the table of protocol factories (source texts)
+     gen_get_location_router, gen_location_post_init    locations -> handlers -> router (C17), at the end of the file
    The protocol-level part of C04 (a protocol object consults the chain it was given before any handler runs) is
    Props/C04.v over Gen/ServerGen.v; MiddlewareChain.process_request is PyGen.gen_chain_process (Equiv.chain_process_tie).
    Statements only; proofs in Proofs/EquivWiring_proofs.v.  Helper definitions are restated there.
@@ -13,7 +14,7 @@
 From Coq Require Import List NArith ZArith QArith Bool String.
 From NV Require Import Prelude.Str Prelude.Res Equiv.WiringGlue.
 From NV Require Import Gen.WiringGen.
-From NV Require Model.Ip Model.CertAuth Gen.PyGen Equiv.Equiv.
+From NV Require Model.Ip Model.CertAuth Model.Proxy Model.ServerProto Gen.PyGen Equiv.Equiv Gen.MwGen Equiv.EquivMw.
 From NV Require Proofs.EquivWiring_proofs.
 Import ListNotations.
 Open Scope list_scope.
@@ -362,3 +363,169 @@ Theorem cli_wiring : forall c flag c' en rl ac cac,
   (gen_chain en rl ac cac = None <-> forall k, config_wants c k = false).
 Proof. exact EquivWiring_proofs.cli_wiring. Qed.
 Print Assumptions cli_wiring.
+
+(* ================= C17: ServerConfig.locations -> handlers -> router ================= *)
+(* gen_get_location_router (server/config.py, with the nested create_handler) and gen_location_post_init
+   (server/location.py) over MwGen's Route record and add_route (py2coq_mw.py).  `handle_of h` is the bound method
+   `h.handle` of a handler object h - any function; `handler` is generated: a class and its constructor arguments. *)
+(* a or d on Optional int / int: None and 0 are false *)
+Definition value_or (o : option Z) (d : Z) : Z := match o with Some v => if Z.eqb v 0 then d else v | None => d end.
+
+(* the handler of a location, from THAT location's fields (and the two documented fall-backs: the server-wide listing flag
+   and max_file_size); AssertionError: create_handler's asserts *)
+Definition handler_of (c : py_ServerConfig) (edl : bool) (loc : py_LocationConfig) : res handler :=
+  match LocationConfig_handler_type loc with
+  | HandlerType_STATIC =>
+      match LocationConfig_document_root loc with
+      | Some d => Ok (H_StaticFileHandler d (Some (LocationConfig_default_indices loc))
+                                          (LocationConfig_enable_directory_listing loc || edl)
+                                          (Some (value_or (LocationConfig_max_file_size loc) (ServerConfig_max_file_size c))))
+      | None => Err (lit "AssertionError") []
+      end
+  | HandlerType_PROXY =>
+      match LocationConfig_upstream loc with
+      | Some u => Ok (H_ProxyHandler u (LocationConfig_prefix loc) (LocationConfig_strip_prefix loc) (LocationConfig_timeout loc))
+      | None => Err (lit "AssertionError") []
+      end
+  end.
+
+Section Routes.
+Variables (REQ RX : Type) (rc : str -> option RX) (handle_of : handler -> REQ -> ServerProto.resp)
+          (c : py_ServerConfig) (edl : bool).
+
+Definition route_of (loc : py_LocationConfig) (h : handler) : MwGen.py_Route REQ RX :=
+  MwGen.mk_py_Route (LocationConfig_prefix loc) (handle_of h) MwGen.RouteType_PREFIX None.
+
+(* one route per location, in order; the first location whose handler cannot be built stops everything *)
+Fixpoint routes_of (ls : list py_LocationConfig) : res (list (MwGen.py_Route REQ RX)) :=
+  match ls with
+  | [] => Ok []
+  | l :: ls' =>
+      match handler_of c edl l with
+      | Ok h => match routes_of ls' with Ok rs => Ok (route_of l h :: rs) | Err k m => Err k m | OutOfModel => OutOfModel end
+      | Err k m => Err k m
+      | OutOfModel => OutOfModel
+      end
+  end.
+
+Definition location_router_spec : res (option (routes REQ RX)) :=
+  match ServerConfig_locations c with
+  | None | Some [] => Ok None
+  | Some ls => match routes_of ls with Ok rs => Ok (Some rs) | Err k m => Err k m | OutOfModel => OutOfModel end
+  end.
+End Routes.
+
+(* LocationConfig.__post_init__ *)
+Definition norm_prefix (p : str) : str := if prefixb (lit "/") p then p else lit "/" ++ p.
+Definition post_init_spec (ex isd : pathlike -> bool) (l : py_LocationConfig) : res py_LocationConfig :=
+  let p := norm_prefix (LocationConfig_prefix l) in
+  match LocationConfig_handler_type l with
+  | HandlerType_STATIC =>
+      match LocationConfig_document_root l with
+      | None => Err (lit "ValueError") []
+      | Some d =>
+          let d' := if pathlike_is_str d then pathlike_to_path d else d in
+          if ex d' then
+            if isd d' then Ok (mk_py_LocationConfig p HandlerType_STATIC (Some d') (LocationConfig_enable_directory_listing l)
+                                 (LocationConfig_default_indices l) (LocationConfig_max_file_size l) (LocationConfig_upstream l)
+                                 (LocationConfig_strip_prefix l) (LocationConfig_timeout l))
+            else Err (lit "ValueError") []
+          else Err (lit "ValueError") []
+      end
+  | HandlerType_PROXY =>
+      match LocationConfig_upstream l with
+      | None => Err (lit "ValueError") []
+      | Some u =>
+          if prefixb (lit "gemini://") u
+          then Ok (mk_py_LocationConfig p HandlerType_PROXY (LocationConfig_document_root l) (LocationConfig_enable_directory_listing l)
+                     (LocationConfig_default_indices l) (LocationConfig_max_file_size l) (Some u)
+                     (LocationConfig_strip_prefix l) (LocationConfig_timeout l))
+          else Err (lit "ValueError") []
+      end
+  end.
+
+(* the URL a handler object forwards to (ProxyHandler.__init__ keeps upstream.rstrip("/"), prefix, strip_prefix: checked by
+   the translator; _handle_async's URL construction is PyGen.gen_upstream_url, Equiv.upstream_url_tie) *)
+Definition handler_upstream_url (h : handler) (path query : str) : option str :=
+  match h with
+  | H_ProxyHandler u p s _ => Some (PyGen.gen_upstream_url (Proxy.rstrip_slash u) p s path query)
+  | H_StaticFileHandler _ _ _ _ => None
+  end.
+
+(* get_location_router: None without locations; else one PREFIX route per location, in the order of self.locations, whose
+   handler is built from that location (the first location that cannot be handled raises) *)
+Theorem location_router_tie : forall REQ RX rc handle_of c edl,
+  gen_get_location_router REQ RX rc handle_of c edl = location_router_spec REQ RX handle_of c edl.
+Proof. exact EquivWiring_proofs.location_router_tie. Qed.
+Print Assumptions location_router_tie.
+
+Theorem routes_of_each : forall REQ RX handle_of c edl ls rs,
+  routes_of REQ RX handle_of c edl ls = Ok rs ->
+  Forall2 (fun loc r => exists h, handler_of c edl loc = Ok h /\ r = route_of REQ RX handle_of loc h) ls rs.
+Proof. exact EquivWiring_proofs.routes_of_each. Qed.
+Print Assumptions routes_of_each.
+
+Theorem routes_of_shape : forall REQ RX handle_of c edl ls rs,
+  routes_of REQ RX handle_of c edl ls = Ok rs ->
+  List.length rs = List.length ls /\
+  map (fun r => (MwGen.Route_pattern r, MwGen.Route_route_type r)) rs =
+  map (fun loc => (LocationConfig_prefix loc, MwGen.RouteType_PREFIX)) ls.
+Proof. exact EquivWiring_proofs.routes_of_shape. Qed.
+Print Assumptions routes_of_shape.
+
+(* composed with Router.route (MwGen.gen_router_route, EquivMw.router_route_first_match): a request is handled by the first
+   location whose prefix matches its path, by the handler built from THAT location; else by the default handler *)
+Theorem location_routing : forall REQ RX handle_of c edl req_path rxm ls rs dflt request,
+  routes_of REQ RX handle_of c edl ls = Ok rs ->
+  MwGen.gen_router_route REQ RX req_path rxm rs dflt request =
+  match find (fun loc => prefixb (LocationConfig_prefix loc) (req_path request)) ls with
+  | Some loc => match handler_of c edl loc with Ok h => handle_of h request | _ => EquivMw.or_default dflt request end
+  | None => EquivMw.or_default dflt request
+  end.
+Proof. exact EquivWiring_proofs.location_routing. Qed.
+Print Assumptions location_routing.
+
+(* two locations never get the same handler unless every field a handler is built from agrees *)
+Theorem handler_of_injective : forall c edl l1 l2 h,
+  handler_of c edl l1 = Ok h -> handler_of c edl l2 = Ok h ->
+  LocationConfig_handler_type l1 = LocationConfig_handler_type l2 /\
+  match h with
+  | H_ProxyHandler _ _ _ _ =>
+      LocationConfig_upstream l1 = LocationConfig_upstream l2 /\ LocationConfig_prefix l1 = LocationConfig_prefix l2 /\
+      LocationConfig_strip_prefix l1 = LocationConfig_strip_prefix l2 /\ LocationConfig_timeout l1 = LocationConfig_timeout l2
+  | H_StaticFileHandler _ _ _ _ =>
+      LocationConfig_document_root l1 = LocationConfig_document_root l2 /\
+      LocationConfig_default_indices l1 = LocationConfig_default_indices l2 /\
+      (LocationConfig_enable_directory_listing l1 || edl) = (LocationConfig_enable_directory_listing l2 || edl) /\
+      value_or (LocationConfig_max_file_size l1) (ServerConfig_max_file_size c) =
+      value_or (LocationConfig_max_file_size l2) (ServerConfig_max_file_size c)
+  end.
+Proof. exact EquivWiring_proofs.handler_of_injective. Qed.
+Print Assumptions handler_of_injective.
+
+(* a proxy location forwards to ITS upstream, mapping the URL with ITS prefix / strip_prefix (Model.Proxy.upstream_url) *)
+Theorem proxy_location_url : forall c edl loc u path query,
+  LocationConfig_handler_type loc = HandlerType_PROXY -> LocationConfig_upstream loc = Some u ->
+  exists h, handler_of c edl loc = Ok h /\
+  handler_upstream_url h path query =
+  Some (Proxy.upstream_url {| Proxy.px_upstream := u; Proxy.px_prefix := LocationConfig_prefix loc;
+                              Proxy.px_strip := LocationConfig_strip_prefix loc |} path query).
+Proof. exact EquivWiring_proofs.proxy_location_url. Qed.
+Print Assumptions proxy_location_url.
+
+Theorem location_post_init_tie : forall ex isd l, gen_location_post_init ex isd l = post_init_spec ex isd l.
+Proof. exact EquivWiring_proofs.location_post_init_tie. Qed.
+Print Assumptions location_post_init_tie.
+
+(* a location that passed __post_init__: normalised prefix, its handler can be built, a proxy's upstream is gemini:// *)
+Theorem validated_location : forall ex isd l0 l c edl,
+  gen_location_post_init ex isd l0 = Ok l ->
+  prefixb (lit "/") (LocationConfig_prefix l) = true /\
+  LocationConfig_prefix l = norm_prefix (LocationConfig_prefix l0) /\
+  (exists h, handler_of c edl l = Ok h) /\
+  (LocationConfig_handler_type l = HandlerType_PROXY ->
+   exists u, LocationConfig_upstream l = Some u /\ prefixb (lit "gemini://") u = true /\
+             LocationConfig_upstream l0 = Some u /\ LocationConfig_strip_prefix l = LocationConfig_strip_prefix l0 /\
+             LocationConfig_timeout l = LocationConfig_timeout l0).
+Proof. exact EquivWiring_proofs.validated_location. Qed.
+Print Assumptions validated_location.
